@@ -111,6 +111,7 @@ type Runner struct {
 	norder   int
 	nmoved   int
 	nforeign int
+	nwrites  int
 	isOpen   bool // the sink certainly holds an open file
 	unsure   bool // after an error: open state unknown
 	since    int  // bytes acknowledged since the file was opened
@@ -428,7 +429,17 @@ func (r *Runner) Step(op Op) *Violation {
 	case "write":
 		ev := &eventlogger.Event{Type: "t", CreatedAt: time.Now(), Formatted: map[string][]byte{}}
 		if !op.NoFormat {
-			ev.Formatted[r.format] = op.Data
+			r.nwrites++
+			switch r.nwrites % 3 {
+			case 1: // stored through FormattedAs, then the exported table entry is rewritten directly (a redacting node)
+				ev.FormattedAs(r.format, []byte("value-before-the-direct-edit"))
+				ev.Formatted[r.format] = op.Data
+			case 2: // stored through FormattedAs after an earlier value
+				ev.FormattedAs(r.format, []byte("superseded"))
+				ev.FormattedAs(r.format, op.Data)
+			default:
+				ev.Formatted[r.format] = op.Data
+			}
 		} else {
 			ev.Formatted["some-other-format"] = op.Data
 		}
